@@ -22,6 +22,7 @@ import pickle
 import sys
 import threading
 import warnings
+import typing
 from typing import Any, Iterator
 
 import jax.tree_util as jtu
@@ -329,6 +330,7 @@ def probes_once():
         out.append(("structured '?' PyTree works", obs.verdict((np.zeros((3,)), np.zeros((4,))), PyTree[Shaped[np.ndarray, "?k"], "T"]), "True"))
         out.append(("PyTree[int] rejects a str leaf", obs.verdict([1, "s"], PyTree[int]), "False"))
         out.append(("PyTree leaf with wrong dtype rejected", obs.verdict((np.zeros((3,), dtype="int32"),), PyTree[Float[np.ndarray, "n"]]), "False"))
+    out.append(("instance lacking a member of the Protocol array type rejected", obs.verdict(ProtoValue((3,), "float32", complete=False), Float[ArrayProto, "n"]), "False"))
     out.append(("shared annotation rejects a non-array", obs.verdict("a string", SHARED), "False"))
     out.append(("shared annotation rejects a wrong shape", obs.verdict(np.zeros((2, 2), dtype="float32"), SHARED), "False"))
     out.append(("config switches untouched", (bool(jaxtyping.config.jaxtyping_disable), bool(jaxtyping.config.jaxtyping_remove_typechecker_stack)), (False, False)))
@@ -706,6 +708,31 @@ def h_address_reuse():
             keep.append(other)
 
 
+@typing.runtime_checkable
+class ArrayProto(typing.Protocol):
+    """a structural array type whose members are per-instance data attributes"""
+
+    shape: tuple
+    dtype: Any
+    data: Any
+
+
+class ProtoValue:
+    def __init__(self, shape, dtype, complete=True):
+        self.shape = shape
+        self.dtype = np.dtype(dtype)
+        if complete:
+            self.data = b""
+
+
+def h_protocol_array_pass():
+    """A runtime-checkable Protocol as the array type: a conforming instance is accepted, at top level, as an argument and as a leaf."""
+    ann = Float[ArrayProto, "n"]
+    assert isinstance(ProtoValue((3,), "float32"), ann)
+    with jaxtyped("context"):
+        assert isinstance([ProtoValue((3,), "float32"), ProtoValue((3,), "float64")], PyTree[ann])
+
+
 def h_pytree_union_inner_structured():
     """An outer structure-less PyTree whose leaf type is Union[str, <structured PyTree with a '?' axis>]: while the outer check looks
     for leaves, the inner structured check is tried on containers it does not match.  The outer check passes; nothing of the inner
@@ -725,12 +752,12 @@ HISTORY_OPS = {
     "decorate-shared-typeguard": h_decorate_shared_tg, "decorate-shared-beartype": h_decorate_shared_bt, "decorate-shared-old": h_decorate_shared_old,
     "generator-old-unpickled": h_generator_old_unpickled, "generator-old-inner-outer": h_generator_old_inner_outer, "generator-old-pytree": h_generator_old_pytree, "generator-new-shared": h_generator_new_shared, "generator-old-fresh": h_generator_old_fresh, "generator-old-shared": h_generator_old_shared,
     "resubscribe": h_resubscribe, "pickle": h_pickle, "hook": h_hook, "hook-exception": h_hook_exception, "config-roundtrip": h_config_roundtrip,
-    "pytree-union-inner-structured": h_pytree_union_inner_structured, "address-reuse": h_address_reuse, "generator-none-suspended": h_generator_none_suspended, "forward-reference-early-call": h_forward_reference_early_call,
+    "pytree-union-inner-structured": h_pytree_union_inner_structured, "protocol-array-pass": h_protocol_array_pass, "address-reuse": h_address_reuse, "generator-none-suspended": h_generator_none_suspended, "forward-reference-early-call": h_forward_reference_early_call,
     "call-ok": h_call_ok, "call-ill": h_call_ill, "call-raises": h_call_raises, "thread-activity": h_thread_activity, "name-format": h_name_format,
 }
 KNOWN_EXCLUDED = {"generator-old-shared"}
 INTERESTING = {"check-fail", "check-raise", "pytree-fail", "pytree-q-misuse", "pytree-unbound-composite", "decorate-shared-typeguard", "decorate-shared-beartype",
-               "decorate-shared-old", "generator-new-shared", "call-ill", "call-raises", "hook-exception", "generator-none-suspended", "forward-reference-early-call", "address-reuse", "pytree-union-inner-structured"}
+               "decorate-shared-old", "generator-new-shared", "call-ill", "call-raises", "hook-exception", "generator-none-suspended", "forward-reference-early-call", "address-reuse", "pytree-union-inner-structured", "protocol-array-pass"}
 
 
 def reset_shared():
